@@ -7,8 +7,9 @@
 // tx count on the correct hash, or an entry with an unknown hash; headers = lists of <= 3 entries, bodies =
 // lists of <= 3 miniblocks (duplicates, omissions, reorderings included).
 // Oracle: ProcessBlock passes the correlation check (err is not ErrHeaderBodyMismatch/ErrNilMiniBlock)
-//   <=>  multiset bijection between header entries and body miniblocks with equal
-//        hash/sender/receiver/type/txcount; and a matching pair must give err == nil.
+//
+//	<=>  multiset bijection between header entries and body miniblocks with equal
+//	     hash/sender/receiver/type/txcount; and a matching pair must give err == nil.
 package main
 
 import (
@@ -98,28 +99,96 @@ type mbInfo struct {
 	hash []byte
 }
 
+var shardSet = []uint32{0, 1, core.MetachainShardId, core.AllShardId}
+var typeSet = []block.Type{block.TxBlock, block.StateBlock, block.PeerBlock, block.SmartContractResultBlock, block.InvalidBlock, block.ReceiptBlock, block.RewardsBlock}
+
+func mkMb(name string, txs []string, send, recv uint32, t block.Type) mbInfo {
+	mb := &block.MiniBlock{SenderShardID: send, ReceiverShardID: recv, Type: t}
+	for _, s := range txs {
+		mb.TxHashes = append(mb.TxHashes, []byte(s))
+	}
+	h, err := core.CalculateHash(msh, hsh, mb)
+	if err != nil {
+		panic(err)
+	}
+	return mbInfo{name, mb, h}
+}
+
+// universe: the base universe (all miniblocks sent by the processor's own shard, so that a matching pair runs
+// through the whole ProcessBlock with nil)
 func universe(self uint32) []mbInfo {
 	other1, other2 := uint32(1), uint32(2)
-	if self != 0 && self != core.MetachainShardId {
-		other1 = 0
-	}
-	mk := func(name string, txs []string, recv uint32, t block.Type) mbInfo {
-		mb := &block.MiniBlock{SenderShardID: self, ReceiverShardID: recv, Type: t}
-		for _, s := range txs {
-			mb.TxHashes = append(mb.TxHashes, []byte(s))
-		}
-		h, err := core.CalculateHash(msh, hsh, mb)
-		if err != nil {
-			panic(err)
-		}
-		return mbInfo{name, mb, h}
-	}
 	return []mbInfo{
-		mk("A", []string{"txA1"}, self, block.TxBlock),
-		mk("B", []string{"txB1", "txB2"}, other1, block.TxBlock),
-		mk("C", []string{"txA1"}, self, block.SmartContractResultBlock), // retyped copy of A
-		mk("D", []string{"txD1", "txD2", "txD3"}, other2, block.SmartContractResultBlock),
+		mkMb("A", []string{"txA1"}, self, self, block.TxBlock),
+		mkMb("B", []string{"txB1", "txB2"}, self, other1, block.TxBlock),
+		mkMb("C", []string{"txA1"}, self, self, block.SmartContractResultBlock), // retyped copy of A
+		mkMb("D", []string{"txD1", "txD2", "txD3"}, self, other2, block.SmartContractResultBlock),
 	}
+}
+
+// extUniverse: miniblocks with sender/receiver in {0, 1, META, ALL} and any block type. Index 0 is a fixed universe
+// with the protocol's special miniblocks (validator info PeerBlock META->ALL, RewardsBlock META->shard); the others
+// are drawn from rng. Later steps of ProcessBlock (cross-shard verification) may reject such blocks for their own
+// reasons, so only the correlation verdict is judged for these universes.
+func extUniverse(idx int, rng *vk.Rand) []mbInfo {
+	if idx == 0 {
+		return []mbInfo{
+			mkMb("A", []string{"valInfo1", "valInfo2"}, core.MetachainShardId, core.AllShardId, block.PeerBlock),
+			mkMb("B", []string{"reward1"}, core.MetachainShardId, 1, block.RewardsBlock),
+			mkMb("C", []string{"valInfo1", "valInfo2"}, core.MetachainShardId, core.AllShardId, block.TxBlock), // retyped copy of A
+			mkMb("D", []string{"txD1", "txD2", "txD3"}, 1, 0, block.InvalidBlock),
+		}
+	}
+	var u []mbInfo
+	names := []string{"A", "B", "C", "D"}
+	for i := 0; i < 4; i++ {
+		var txs []string
+		for k := 0; k <= rng.Intn(3); k++ {
+			txs = append(txs, fmt.Sprintf("tx%s%d-%d", names[i], k, idx))
+		}
+		send, recv, t := shardSet[rng.Intn(4)], shardSet[rng.Intn(4)], typeSet[rng.Intn(len(typeSet))]
+		if i == 0 && rng.Bool() {
+			recv = core.AllShardId
+		}
+		if i == 2 { // retyped / re-addressed copy of A
+			a := u[0].mb
+			txs = nil
+			for _, h := range a.TxHashes {
+				txs = append(txs, string(h))
+			}
+			send, recv, t = a.SenderShardID, a.ReceiverShardID, a.Type
+			switch rng.Intn(3) {
+			case 0:
+				t = otherType(t, rng.Intn(6))
+			case 1:
+				recv = otherShard(recv, rng.Intn(3))
+			default:
+				send = otherShard(send, rng.Intn(3))
+			}
+		}
+		u = append(u, mkMb(names[i], txs, send, recv, t))
+	}
+	return u
+}
+
+func otherShard(s uint32, k int) uint32 {
+	var o []uint32
+	for _, x := range shardSet {
+		if x != s {
+			o = append(o, x)
+		}
+	}
+	return o[k%len(o)]
+}
+
+func otherType(t block.Type, k int) block.Type {
+	var o []block.Type
+	for _, x := range typeSet {
+		if x != t {
+			o = append(o, x)
+		}
+	}
+	return o[k%len(o)]
 }
 
 type entry struct {
@@ -127,27 +196,20 @@ type entry struct {
 	mbh  block.MiniBlockHeader
 }
 
-func entries(u []mbInfo, self uint32) []entry {
+// entries: per miniblock the exact header entry and four inexact ones on the correct hash; k varies the wrong value
+func entries(u []mbInfo, self uint32, k int) []entry {
 	var out []entry
-	for _, m := range u {
+	for i, m := range u {
 		ok := block.MiniBlockHeader{Hash: m.hash, SenderShardID: m.mb.SenderShardID, ReceiverShardID: m.mb.ReceiverShardID, TxCount: uint32(len(m.mb.TxHashes)), Type: m.mb.Type}
 		out = append(out, entry{m.name, ok})
 		t := ok
-		if t.Type == block.TxBlock {
-			t.Type = block.SmartContractResultBlock
-		} else {
-			t.Type = block.TxBlock
-		}
+		t.Type = otherType(ok.Type, k+i)
 		out = append(out, entry{m.name + "!type", t})
 		rc := ok
-		rc.ReceiverShardID = (rc.ReceiverShardID + 1) % 3
+		rc.ReceiverShardID = otherShard(ok.ReceiverShardID, k+i)
 		out = append(out, entry{m.name + "!recv", rc})
 		sn := ok
-		if self == core.MetachainShardId {
-			sn.SenderShardID = 1
-		} else {
-			sn.SenderShardID = (self + 1) % 3
-		}
+		sn.SenderShardID = otherShard(ok.SenderShardID, k+i+1)
 		out = append(out, entry{m.name + "!send", sn})
 		tc := ok
 		tc.TxCount++
@@ -249,9 +311,10 @@ func reference(hdr []entry, body []mbInfo) (match bool, class string) {
 func main() {
 	logger.SetLogLevel("*:NONE")
 	r := vk.Start("C19")
-	r.Rule("universe of 4 miniblocks (A, B to another shard, C = A retyped, D three txs) and 21 header entries (per miniblock: exact, wrong type, wrong receiver, wrong sender, wrong tx count on the correct hash; plus an unknown hash); quick: every header list of <= 3 entries with at most one inexact entry (1054) plus a seed-chosen sample of 400 lists with several inexact entries x every body list of <= 3 miniblocks (85), thorough: all 9724 header lists x 85 bodies; each pair goes through the real ProcessBlock of a shard processor and of a meta processor. Non-trivial = non-empty header or body; shape = (processor, header length, body length, number of inexact entries, reference verdict/class, observed verdict).")
-	r.Assume("processors are assembled from the repository's mock packages (transaction coordinator, accounts, trackers are stubs); the correlation check is the first body-dependent step of ProcessBlock",
+	r.Rule("base universe of 4 miniblocks sent by the processor's own shard (A, B to another shard, C = A retyped, D three txs) and 21 header entries (per miniblock: exact, wrong type, wrong receiver, wrong sender, wrong tx count on the correct hash; plus an unknown hash); quick: every header list of <= 3 entries with at most one inexact entry (1054) plus a seed-chosen sample of 400 lists with several inexact entries x every body list of <= 3 miniblocks (85), thorough: all 9724 header lists x 85 bodies; through the real ProcessBlock of a shard processor and of a meta processor, with a normal header and with a START-OF-EPOCH header (meta: non-empty EpochStart.LastFinalizedHeaders, i.e. the processEpochStartMetaBlock path; shard: EpochStartMetaHash set). Extended universes (a fixed one with a validator-info PeerBlock META->ALL, a RewardsBlock META->1, an InvalidBlock 1->0, and seed-chosen ones with sender/receiver in {0,1,META,ALL} and all seven block types): header lists with at most one inexact entry x 85 bodies, shard normal + meta normal + meta start-of-epoch. Non-trivial = non-empty header or body; shape = (processor, path, universe kind, header length, body length, number of inexact entries, reference verdict/class, observed verdict).")
+	r.Assume("processors are assembled from the repository's mock packages (transaction coordinator, accounts, trackers, epoch start creators are stubs); the correlation check is the first body-dependent step of ProcessBlock",
 		"an error other than ErrHeaderBodyMismatch/ErrNilMiniBlock after the correlation step counts as 'passed the correlation check' (later steps such as the cross-shard miniblock verification may still reject a header whose entries name other shards)",
+		"base universe: a matching pair must return nil; extended universes (foreign senders): only the correlation verdict is judged",
 		"miniblock hashes are collision free, so a body miniblock has exactly one admissible (sender, receiver, type, tx count)")
 	r.MinShapes(40)
 
@@ -260,19 +323,22 @@ func main() {
 		self uint32
 		mk   func() (blockProcessor, error)
 	}
-	kinds := []procKind{{"shard", 0, newShardProc}, {"meta", core.MetachainShardId, newMetaProc}}
+	shardK := procKind{"shard", 0, newShardProc}
+	metaK := procKind{"meta", core.MetachainShardId, newMetaProc}
 
 	type plan struct {
 		kind    procKind
+		soe     bool   // start-of-epoch header
+		uname   string // base / ext<i>
+		strict  bool   // matching pair must give nil
 		u       []mbInfo
 		ents    []entry
 		headers [][]int
 		bodies  [][]int
 	}
 	var plans []plan
-	for _, k := range kinds {
-		u := universe(k.self)
-		ents := entries(u, k.self)
+	addPlan := func(k procKind, soe bool, uname string, strict bool, u []mbInfo, entK int, full bool, sample int) {
+		ents := entries(u, k.self, entK)
 		all := lists(len(ents), 3)
 		var hs, rest [][]int
 		for _, h := range all {
@@ -282,20 +348,32 @@ func main() {
 					bad++
 				}
 			}
-			if r.Quick() && bad > 1 {
+			if !full && bad > 1 {
 				rest = append(rest, h)
 				continue
 			}
 			hs = append(hs, h)
 		}
-		// quick: plus a seed-dependent sample of the header lists with several inexact entries
-		if len(rest) > 0 {
-			srng := vk.NewRand(r.Seed*977 + uint64(k.self))
-			for _, i := range srng.Perm(len(rest))[:400] {
+		if len(rest) > 0 && sample > 0 {
+			srng := vk.NewRand(r.Seed*977 + uint64(k.self) + uint64(len(plans)))
+			for _, i := range srng.Perm(len(rest))[:sample] {
 				hs = append(hs, rest[i])
 			}
 		}
-		plans = append(plans, plan{k, u, ents, hs, lists(len(u), 3)})
+		plans = append(plans, plan{k, soe, uname, strict, u, ents, hs, lists(len(u), 3)})
+	}
+	full := !r.Quick()
+	addPlan(shardK, false, "base", true, universe(0), 0, full, 400)
+	addPlan(metaK, false, "base", true, universe(core.MetachainShardId), 0, full, 400)
+	addPlan(metaK, true, "base", true, universe(core.MetachainShardId), 1, full, 100)
+	addPlan(shardK, true, "base", true, universe(0), 1, false, 100)
+	urng := vk.NewRand(r.Seed*31337 + 19)
+	for i := 0; i < r.N(3, 12); i++ {
+		u := extUniverse(i, urng)
+		name := fmt.Sprintf("ext%d", i)
+		addPlan(shardK, false, name, false, u, i, false, 0)
+		addPlan(metaK, false, name, false, u, i+1, false, 0)
+		addPlan(metaK, true, name, false, u, i+2, false, 0)
 	}
 	const chunk = 64 // headers per case
 	type job struct {
@@ -322,6 +400,15 @@ func main() {
 		if err != nil {
 			r.Inconclusive("cannot assemble " + p.kind.name + " processor: " + err.Error())
 			return
+		}
+		path, pathSuffix := "normal", ""
+		if p.soe {
+			path, pathSuffix = "start-of-epoch", " path=start-of-epoch"
+		}
+		tag := p.kind.name + "/" + path + "/" + p.uname
+		ukind := "base"
+		if !p.strict {
+			ukind = "ext"
 		}
 		for hi := j.lo; hi < j.hi; hi++ {
 			hl := p.headers[hi]
@@ -355,12 +442,21 @@ func main() {
 				}
 				var hdr data.HeaderHandler
 				if p.kind.self == core.MetachainShardId {
-					hdr = &block.MetaBlock{Nonce: 1, Round: 1, PrevHash: []byte(""), PrevRandSeed: []byte(""), RandSeed: []byte("rs"), Signature: []byte("sig"), PubKeysBitmap: []byte{1},
+					mb := &block.MetaBlock{Nonce: 1, Round: 1, PrevHash: []byte(""), PrevRandSeed: []byte(""), RandSeed: []byte("rs"), Signature: []byte("sig"), PubKeysBitmap: []byte{1},
 						RootHash: []byte("rootHash"), MiniBlockHeaders: mbhs, TxCount: uint32(len(bl)),
 						AccumulatedFees: big.NewInt(0), DeveloperFees: big.NewInt(0), AccumulatedFeesInEpoch: big.NewInt(0), DevFeesInEpoch: big.NewInt(0)}
+					if p.soe {
+						mb.EpochStart.LastFinalizedHeaders = []block.EpochStartShardData{{ShardID: 0, HeaderHash: []byte("h0"), RootHash: []byte("r0")}, {ShardID: 1, HeaderHash: []byte("h1"), RootHash: []byte("r1")}, {ShardID: 2, HeaderHash: []byte("h2"), RootHash: []byte("r2")}}
+						mb.EpochStart.Economics = block.Economics{TotalSupply: big.NewInt(0), TotalToDistribute: big.NewInt(0), TotalNewlyMinted: big.NewInt(0), RewardsPerBlock: big.NewInt(0), RewardsForProtocolSustainability: big.NewInt(0), NodePrice: big.NewInt(0)}
+					}
+					hdr = mb
 				} else {
-					hdr = &block.Header{Nonce: 1, Round: 1, PrevHash: []byte(""), PrevRandSeed: []byte(""), RandSeed: []byte("rs"), Signature: []byte("sig"), PubKeysBitmap: []byte{1}, ShardID: 0,
+					sh := &block.Header{Nonce: 1, Round: 1, PrevHash: []byte(""), PrevRandSeed: []byte(""), RandSeed: []byte("rs"), Signature: []byte("sig"), PubKeysBitmap: []byte{1}, ShardID: 0,
 						RootHash: []byte("rootHash"), MiniBlockHeaders: mbhs, TxCount: uint32(len(bl)), AccumulatedFees: big.NewInt(0), DeveloperFees: big.NewInt(0)}
+					if p.soe {
+						sh.EpochStartMetaHash = []byte("epochStartMetaHash")
+					}
+					hdr = sh
 				}
 				perr := proc.ProcessBlock(hdr, body, haveTime)
 				r.Eval(1)
@@ -374,7 +470,7 @@ func main() {
 					obs = "later-error"
 					r.Count("passed_correlation_then:"+perr.Error(), 1)
 				}
-				r.Count(p.kind.name+":"+obs, 1)
+				r.Count(p.kind.name+"/"+path+":"+obs, 1)
 				if len(hl) == 0 && len(bl) == 0 {
 					r.Trivial()
 				} else {
@@ -382,23 +478,33 @@ func main() {
 					if !want {
 						ref = class
 					}
-					r.Shape(fmt.Sprintf("%s h%d b%d bad%d ref=%s obs=%s", p.kind.name, len(hl), len(bl), inexact, ref, obs))
+					r.Shape(fmt.Sprintf("%s %s %s h%d b%d bad%d ref=%s obs=%s", p.kind.name, path, ukind, len(hl), len(bl), inexact, ref, obs))
 				}
-				detail := map[string]interface{}{"processor": p.kind.name, "header_entries": hnames, "body": bnames, "reference_match": want, "mismatch_class": class, "process_block_error": fmt.Sprint(perr)}
+				detail := map[string]interface{}{"processor": p.kind.name, "path": path, "universe": p.uname, "header_entries": hnames, "body": bnames, "reference_match": want, "mismatch_class": class, "process_block_error": fmt.Sprint(perr)}
+				if !p.strict {
+					var ud []string
+					for _, m := range p.u {
+						ud = append(ud, fmt.Sprintf("%s: %d txs %d->%d type %d", m.name, len(m.mb.TxHashes), m.mb.SenderShardID, m.mb.ReceiverShardID, m.mb.Type))
+					}
+					detail["universe_miniblocks"] = ud
+					var ed []string
+					for _, e := range hdrEntries {
+						ed = append(ed, fmt.Sprintf("%s: %d->%d type %d txcount %d", e.name, e.mbh.SenderShardID, e.mbh.ReceiverShardID, e.mbh.Type, e.mbh.TxCount))
+					}
+					detail["header_entries_full"] = ed
+				}
 				if want {
 					r.Count("reference_match", 1)
-					if perr != nil {
-						key := "rejected-match"
-						if !rejectedByCorrelation {
-							key = "rejected-match later-step"
-						}
-						r.Violation(c.Idx, key, fmt.Sprintf("%s processor: header [%s] body [%s] match but ProcessBlock returned %v", p.kind.name, strings.Join(hnames, ","), strings.Join(bnames, ","), perr), detail)
+					if rejectedByCorrelation {
+						r.Violation(c.Idx, "rejected-match"+pathSuffix, fmt.Sprintf("%s: header [%s] body [%s] match but ProcessBlock returned %v", tag, strings.Join(hnames, ","), strings.Join(bnames, ","), perr), detail)
+					} else if perr != nil && p.strict {
+						r.Violation(c.Idx, "rejected-match later-step"+pathSuffix, fmt.Sprintf("%s: header [%s] body [%s] match but ProcessBlock returned %v", tag, strings.Join(hnames, ","), strings.Join(bnames, ","), perr), detail)
 					}
 				} else {
 					r.Count("reference_mismatch:"+class, 1)
 					if !rejectedByCorrelation {
-						r.Violation(c.Idx, "accepted-mismatch class="+class,
-							fmt.Sprintf("%s processor: header [%s] vs body [%s] (%s) passed the correlation check: ProcessBlock -> %v", p.kind.name, strings.Join(hnames, ","), strings.Join(bnames, ","), class, perr), detail)
+						r.Violation(c.Idx, "accepted-mismatch class="+class+pathSuffix,
+							fmt.Sprintf("%s: header [%s] vs body [%s] (%s) passed the correlation check: ProcessBlock -> %v", tag, strings.Join(hnames, ","), strings.Join(bnames, ","), class, perr), detail)
 					}
 				}
 				if r.NeedSample() && len(hl) == 2 && len(bl) == 2 && inexact == 1 && hi%7 == 0 {
